@@ -97,6 +97,12 @@ BatchFailing(e) ==
     ELSE IF ~AllIn(e.ip, IpOk) THEN F("C06_InPlaneRange", "ip")
     ELSE None
 
+\* ---- history event: every function of the property is a function of its arguments only.  The same pair is measured,
+\* another public function of the module is called with documented non-default options (sphere radius, symmetry,
+\* radians, other conventions, output order), and the pair is measured again: the two flattened observation vectors must
+\* be identical.  (The two measurements are also ordinary pair events of the trace.) ----
+HistoryFailing(e) == IF e.before # e.after THEN F("C06_CallHistoryIndependent", "after") ELSE None
+
 \* ---- normals events ----
 Small(x) == x >= 0 /\ x <= VecTol
 
@@ -114,6 +120,7 @@ ToNormalFailing(e) ==
 Failing(e) == CASE e.kind = "pair" -> PairFailing(e)
                 [] e.kind = "triple" -> TripleFailing(e)
                 [] e.kind = "batch" -> BatchFailing(e)
+                [] e.kind = "history" -> HistoryFailing(e)
                 [] e.kind = "normals" -> NormalsFailing(e)
                 [] e.kind = "tonormal" -> ToNormalFailing(e)
 
